@@ -333,6 +333,127 @@ type RPCDisembargo struct {
 	Context RPCDisembargoContext
 }
 
+// Deep / ambiguous embeddings on VerTwoData (val, duo): the least nested level decides; on that
+// level tagged beat untagged; exactly one candidate must remain, else the field is unmapped.
+// Declaration-order variants of every shape (the mapping must not depend on the order).
+type EShallow struct{ Val int16 }
+type ETagA struct {
+	A int16 `capnp:"val"`
+}
+type ETagB struct {
+	B int16 `capnp:"val"`
+}
+type EDeepTags struct { // tag collision one level below EShallow
+	ETagA
+	ETagB
+}
+type EUntA struct{ Val int16 }
+type EUntB struct{ Val int16 }
+type EDeepUnt struct { // untagged duplicates
+	EUntA
+	EUntB
+}
+type EDuo struct{ Duo int64 }
+type EDuoTag struct {
+	D int64 `capnp:"duo"`
+}
+
+type EmbShallowFirst struct { // val = EShallow.Val (depth 2), deeper collision irrelevant
+	EShallow
+	EDeepTags
+	EDuo
+}
+type EmbDeepFirst struct {
+	EDeepTags
+	EDuo
+	EShallow
+}
+type EmbShallowFirstUnt struct { // same with untagged duplicates below
+	EShallow
+	EDeepUnt
+}
+type EmbDeepFirstUnt struct {
+	EDeepUnt
+	EShallow
+}
+type EmbCollision struct { // val: two tagged on the least nested level -> unmapped; duo: tagged beats untagged
+	ETagA
+	ETagB
+	EDuo
+	EDuoTag
+}
+type EmbCollisionRev struct {
+	EDuoTag
+	EDuo
+	ETagB
+	ETagA
+}
+type EmbTagVsUnt struct { // val: tagged ETagA.A beats untagged EShallow.Val on the same level
+	EShallow
+	ETagA
+	Duo int64
+}
+type EmbTagVsUntRev struct {
+	Duo int64
+	ETagA
+	EShallow
+}
+type EMid struct { // three levels: EMid.EShallow.Val at depth 3
+	EShallow
+}
+type EDeeper struct { // collision at depth 4
+	EDeepTags
+}
+type EmbThree struct { // val = EMid.EShallow.Val (depth 3) although a depth-4 collision is declared later
+	EMid
+	EDeeper
+}
+type EmbThreeRev struct {
+	EDeeper
+	EMid
+}
+type EmbPtrs struct { // pointer embeddings, collision below a pointer
+	*EShallow
+	*EDeepTags
+	*EDuo
+}
+type EmbPtrsRev struct {
+	*EDuo
+	*EDeepTags
+	*EShallow
+}
+type EmbTopWins struct { // a top-level field shadows everything embedded
+	EDeepTags
+	EShallow
+	Val int16
+	Duo int64
+}
+type EmbUntThenDeepTag struct { // untagged pair on level 2 (unmapped), single tagged one level deeper must NOT win
+	EUntA
+	EUntB
+	EMidTag
+}
+type EMidTag struct{ ETagA }
+type EmbUntThenDeepTagRev struct {
+	EMidTag
+	EUntB
+	EUntA
+}
+
+type EUntC struct{ Val int16 }
+type EmbThreeUnt struct { // three untagged candidates on one level: all ignored
+	EUntA
+	EUntB
+	EUntC
+	Duo int64
+}
+type EmbThreeUntTag struct { // ... unless exactly one tagged candidate is on that level
+	EUntA
+	EUntB
+	ETagA
+	EUntC
+}
+
 func airID(name string) uint64 {
 	for id, t := range verifair.GenTypes {
 		if t.Name() == name {
@@ -370,6 +491,27 @@ func allSchemas() []*mschema {
 		air("VoidUnion", VoidUnion{}, "VoidUnion"),
 		air("StackingRoot", StackingRoot{}, "StackingRoot"),
 		newSchema("RPCMessage", RPCMessage{}, rpc.Message_TypeID, reflect.TypeOf(rpc.Message{})),
+		// default-true Bool fields (releaseResultCaps, releaseParamCaps) as roots, so that they are
+		// inserted into pre-populated structs
+		newSchema("RPCFinish", RPCFinish{}, rpc.Finish_TypeID, reflect.TypeOf(rpc.Finish{})),
+		newSchema("RPCReturn", RPCReturn{}, rpc.Return_TypeID, reflect.TypeOf(rpc.Return{})),
+		air("EmbShallowFirst", EmbShallowFirst{}, "VerTwoData"),
+		air("EmbDeepFirst", EmbDeepFirst{}, "VerTwoData"),
+		air("EmbShallowFirstUnt", EmbShallowFirstUnt{}, "VerTwoData"),
+		air("EmbDeepFirstUnt", EmbDeepFirstUnt{}, "VerTwoData"),
+		air("EmbCollision", EmbCollision{}, "VerTwoData"),
+		air("EmbCollisionRev", EmbCollisionRev{}, "VerTwoData"),
+		air("EmbTagVsUnt", EmbTagVsUnt{}, "VerTwoData"),
+		air("EmbTagVsUntRev", EmbTagVsUntRev{}, "VerTwoData"),
+		air("EmbThree", EmbThree{}, "VerTwoData"),
+		air("EmbThreeRev", EmbThreeRev{}, "VerTwoData"),
+		air("EmbPtrs", EmbPtrs{}, "VerTwoData"),
+		air("EmbPtrsRev", EmbPtrsRev{}, "VerTwoData"),
+		air("EmbTopWins", EmbTopWins{}, "VerTwoData"),
+		air("EmbUntThenDeepTag", EmbUntThenDeepTag{}, "VerTwoData"),
+		air("EmbUntThenDeepTagRev", EmbUntThenDeepTagRev{}, "VerTwoData"),
+		air("EmbThreeUnt", EmbThreeUnt{}, "VerTwoData"),
+		air("EmbThreeUntTag", EmbThreeUntTag{}, "VerTwoData"),
 	}
 	for _, ms := range r {
 		if ms.name == "StackingRoot" {
